@@ -18,11 +18,11 @@ warnings.filterwarnings("ignore", message="coroutine .* was never awaited")
 
 
 class Outcome:
-    def __init__(self):
+    def __init__(self, log=None):
         self.result = None       # GraphQLResult
         self.exc = None          # exception that failed the overall result
         self.pending = False     # all tasks completed but the overall result is not done
-        self.log = []            # ("submit"|"invoke"|"done", path tuple)
+        self.log = [] if log is None else log   # ("submit"|"invoke"|"call"|"ret"|"done", path tuple) + whatever recorders add
         self.branching = []      # n at each decision point (n >= 2)
         self.choices = []        # index chosen at each decision point
         self.max_pending = 0
@@ -78,23 +78,24 @@ class ManualPool(ThreadPoolExecutor):
             f.set_result(r)
 
 
-def run_blocking(schema, req, world, executor_cls=None):
+def run_blocking(schema, req, world, executor_cls=None, extra=None, log=None):
     from py_gql import process_graphql_query
     from py_gql.execution import Executor
-    o = Outcome()
+    o = Outcome(log)
     world.timeline = o.log
     try:
-        o.result = process_graphql_query(schema, req["text"], variables=req["variables"], operation_name=req["operation_name"],
-                                         context=world, executor_cls=executor_cls or Executor)
+        o.result = process_graphql_query(schema, req.get("document") or req["text"], variables=req["variables"],
+                                         operation_name=req["operation_name"],
+                                         context=world, executor_cls=executor_cls or Executor, **(extra or {}))
     except Exception as e:  # noqa
         o.exc = e
     return o
 
 
-def run_threadpool(schema, req, world, schedule, extra=None):
+def run_threadpool(schema, req, world, schedule, extra=None, log=None):
     from py_gql import process_graphql_query
     from py_gql.execution.runtime import ThreadPoolRuntime
-    o = Outcome()
+    o = Outcome(log)
     world.timeline = o.log
     rt = ThreadPoolRuntime(max_workers=1)
     rt._inner.shutdown(wait=False)
@@ -102,8 +103,8 @@ def run_threadpool(schema, req, world, schedule, extra=None):
     rt._inner = pool
     ch = Chooser(schedule, o)
     try:
-        fut = process_graphql_query(schema, req["text"], variables=req["variables"], operation_name=req["operation_name"],
-                                    context=world, runtime=rt, **(extra or {}))
+        fut = process_graphql_query(schema, req.get("document") or req["text"], variables=req["variables"],
+                                    operation_name=req["operation_name"], context=world, runtime=rt, **(extra or {}))
     except Exception as e:  # noqa
         o.exc = e
         return o
@@ -147,10 +148,10 @@ def delivery_wrap(modes):
     return wrap
 
 
-def run_asyncio(schema, req, world, schedule, in_thread, extra=None):
+def run_asyncio(schema, req, world, schedule, in_thread, extra=None, log=None):
     from py_gql import process_graphql_query
     from py_gql.execution.runtime import AsyncIORuntime
-    o = Outcome()
+    o = Outcome(log)
     world.timeline = o.log
     ch = Chooser(schedule, o)
 
@@ -161,7 +162,8 @@ def run_asyncio(schema, req, world, schedule, in_thread, extra=None):
         world.sched = {"loop": loop, "gates": [], "outcome": o}
         gates = world.sched["gates"]
         try:
-            aw = process_graphql_query(schema, req["text"], variables=req["variables"], operation_name=req["operation_name"],
+            aw = process_graphql_query(schema, req.get("document") or req["text"], variables=req["variables"],
+                                       operation_name=req["operation_name"],
                                        context=world, runtime=AsyncIORuntime(execute_blocking_functions_in_thread=in_thread),
                                        **(extra or {}))
         except Exception as e:  # noqa
